@@ -22,6 +22,10 @@ LEAN = os.path.join(ROOT, "lean")
 WORK = os.path.join(ROOT, ".work")
 EVID = os.path.join(ROOT, "evidence")
 REPLAYS = os.path.join(ROOT, "replays")
+if os.path.realpath(REPO) != "/repo":
+    # a run against a scratch tree (seeded / benign / reverted changes) must not overwrite the evidence of /repo
+    EVID = os.path.join(WORK, "scratch-evidence")
+    REPLAYS = os.path.join(WORK, "scratch-replays")
 HARNESS = os.path.join(ROOT, "harness")
 BIN = os.path.join(LEAN, ".lake", "build", "bin")
 
